@@ -25,7 +25,15 @@ CASES = [
     ("y ~ x", {"y", "x"}, {"x": ["x"]}),
     ("y ~ np.log(z) + x", {"y", "x", "z"}, {"z": ["np.log(z)"], "x": ["x"]}),
     ("y ~ x + f", {"y", "x", "f"}, {"x": ["x"]}),
-    ("y ~ x:f", {"y", "x", "f"}, {}),
+    ("y ~ x:f", {"y", "x", "f"}, {"x": ["x:f[*"]}),                 # "p*": every label that starts with p
+    ("y ~ f + x:f", {"y", "x", "f"}, {"x": ["x:f[*"]}),
+    ("y ~ x:z + w", {"y", "x", "z", "w"}, {"x": ["x:z"], "z": ["x:z"], "w": ["w"]}),
+    ("y ~ 0 + f:x:z", {"y", "x", "z", "f"}, {"x": ["f[*"], "z": ["f[*"]}),
+    # a variable that the expansion removes again is not used by the formula
+    ("y ~ x + z - z", {"y", "x"}, {"x": ["x"]}),
+    ("y ~ x*z - z - x:z", {"y", "x"}, {"x": ["x"]}),
+    ("y ~ x + (z|g) - (z|g) - (1|g)", {"y", "x"}, {"x": ["x"]}),
+    ("y ~ (x + f + w)**2 - f - x:f - f:w", {"y", "x", "w"}, {"x": ["x", "x:w"], "w": ["w", "x:w"]}),
     ("y ~ I(x + z)", {"y", "x", "z"}, {"x": ["I(x + z)"], "z": ["I(x + z)"]}),
     ("y ~ times(x, by=z)", {"y", "x", "z"}, {"x": ["times(x, by=z)"], "z": ["times(x, by=z)"]}),
     ("y ~ times(x, by=z / 2)", {"y", "x", "z"}, {"x": ["times(x, by=z / 2)"], "z": ["times(x, by=z / 2)"]}),
@@ -137,7 +145,8 @@ def _chunk(task):
                             want_nan = set()
                             for c in num_missing:
                                 if r in pat[c]:
-                                    want_nan |= set(derived[c])
+                                    for p in derived[c]:
+                                        want_nan |= {l for l in labels if l.startswith(p[:-1])} if p.endswith("*") else {p}
                             got_nan = {labels[j] for j in range(X.shape[1]) if np.isnan(X[r, j])}
                             if got_nan != want_nan and err is None:
                                 err = f"row {r}: NaN in columns {sorted(got_nan)}, expected exactly {sorted(want_nan)}"
@@ -156,8 +165,9 @@ def _chunk(task):
 
 
 def PROOFS():
-    from ..contracts import design_c
-    return [("vf.contracts.design_c", design_c.FUNCTIONS)]
+    from ..contracts import design_c, utils_c
+    # (interaction columns are plain row-wise products: a NaN factor gives NaN in every column derived from it)
+    return [("vf.contracts.design_c", design_c.FUNCTIONS), ("vf.contracts.utils_c", utils_c.FUNCTIONS)]
 
 
 def run(report, findings):
